@@ -244,7 +244,7 @@ fn hot_reloading_thread(
     select.recv(&cache_msg);
     select.recv(&events);
 
-    loop {
+    'thread: loop {
         // We don't use `select` method here as we always want to check
         // `cache_msg` channel first.
         let ready = select.ready();
@@ -264,7 +264,11 @@ fn hot_reloading_thread(
                 }
                 Ok(CacheMessage::Clear) => cache.clear_local_cache(),
                 Ok(CacheMessage::AddAsset(infos)) => cache.add_asset(infos),
-                Err(_) => break,
+                Err(channel::TryRecvError::Empty) => break,
+                // The cache was dropped: nobody can ask for a reload anymore
+                // and a disconnected channel is always "ready", so stop here
+                // instead of spinning.
+                Err(channel::TryRecvError::Disconnected) => break 'thread,
             }
         }
 
